@@ -4,11 +4,16 @@ C04 — the budget accountant never lets the recorded spend exceed its ceiling.
 All theorems in the first part hold for an ARBITRARY numeric carrier `α` with arbitrary (possibly non-transitive,
 NaN-afflicted) comparison and arithmetic — hence also for the IEEE doubles the Python code really computes with.
 The second part specialises to ℝ, where the invariant unfolds to `total ≤ ceiling` componentwise.
+The third part (`sum_fp_bound`, DESIGN §6 C04 stretch) explains the property's 1e-12 exact-arithmetic slack for slack-0
+accountants: under the standard model of floating-point addition (an explicit hypothesis about the carrier's `+`) the
+EXACT sum of the `n` recorded epsilons of any reachable accountant is at most `ceiling · g^(n−1)`, and for binary64
+`g^(n−1) ≤ 1 + 1e-12` up to `n = 9000`.
 -/
 import DPL.Model.Accountant
 import Mathlib.Data.Real.Basic
 import Mathlib.Analysis.SpecialFunctions.Pow.Real
 import DPL.Proofs.RealCarrier
+import DPL.Proofs.AccountantFp
 
 namespace DPL.C04
 open DPL
@@ -176,6 +181,96 @@ theorem spend_iff_check (a : Acc α) (e d : α) :
   simp only [Acc.step, Acc.spend, bind, Except.bind, pure, Except.pure]
   cases hc : a.check e d <;> simp [Res.ofExcept]
 
+/-! #### every recorded ε passed `check_epsilon_delta` (needed by `sum_fp_bound`) -/
+
+/-- every recorded spend satisfies the carrier's comparison `0 ≤ ε` -/
+def SpendsValid (a : Acc α) : Prop := ∀ sp ∈ a.spent, 0 ≤ sp.eps
+
+theorem check_ok_nonneg (a : Acc α) (e d : α) (h : a.check e d = .ok ()) : 0 ≤ e := by
+  unfold Acc.check at h
+  simp only [bind, Except.bind, pure, Except.pure] at h
+  split at h
+  · cases h
+  · rename_i u hu
+    unfold checkEpsDelta at hu
+    split at hu
+    · cases hu
+    · rename_i hc
+      simpa using hc
+
+theorem spend_ok_valid (a a' : Acc α) (e d : α) (h : a.spend e d = .ok a') (hv : SpendsValid a) : SpendsValid a' := by
+  unfold Acc.spend at h
+  simp only [bind, Except.bind, pure, Except.pure] at h
+  split at h
+  · cases h
+  · rename_i u hu
+    cases u
+    cases h
+    intro sp hsp
+    rcases List.mem_append.mp hsp with h1 | h1
+    · exact hv sp h1
+    · have : sp = ⟨e, d⟩ := by simpa using h1
+      subst this
+      exact check_ok_nonneg a e d hu
+
+theorem setSlack_ok_spent (a a' : Acc α) (s : α) (h : a.setSlack s = .ok a') : a'.spent = a.spent := by
+  unfold Acc.setSlack at h
+  simp only [bind, Except.bind, pure, Except.pure] at h
+  split at h
+  · cases h
+  · split at h
+    · cases h
+    · split at h
+      · cases h
+      · cases h; rfl
+
+theorem step_valid (a : Acc α) (op : AOp α) (h : SpendsValid a) : SpendsValid (a.step op).1 := by
+  cases op with
+  | spend e d =>
+    simp only [Acc.step]
+    split
+    · rename_i a' ha; exact spend_ok_valid a a' e d ha h
+    · exact h
+  | check e d => exact h
+  | setSlack s =>
+    simp only [Acc.step]
+    split
+    · rename_i a' ha
+      intro sp hsp
+      rw [setSlack_ok_spent a a' s ha] at hsp
+      exact h sp hsp
+    · exact h
+  | query => exact h
+
+theorem run_valid (ops : List (AOp α)) (a : Acc α) (h : SpendsValid a) : SpendsValid (a.run ops) := by
+  unfold Acc.run
+  induction ops generalizing a with
+  | nil => exact h
+  | cons op ops ih => exact ih _ (step_valid a op h)
+
+theorem new_valid (eps delta slack mf : α) (prior : List (Spend α)) (a : Acc α)
+    (h : Acc.new eps delta slack mf prior = .ok a) : SpendsValid a := by
+  unfold Acc.new at h
+  simp only [bind, Except.bind, pure, Except.pure] at h
+  split at h
+  · cases h
+  · split at h
+    · cases h
+    · rename_i a1 h1
+      have f1 : SpendsValid a1 := by
+        intro sp hsp
+        rw [setSlack_ok_spent _ a1 slack h1] at hsp
+        simp at hsp
+      clear h1
+      induction prior generalizing a1 with
+      | nil => simp only [List.foldlM, pure, Except.pure] at h; cases h; exact f1
+      | cons sp rest ih =>
+        simp only [List.foldlM, bind, Except.bind] at h
+        split at h
+        · cases h
+        · rename_i a2 h2
+          exact ih a2 h (spend_ok_valid a1 a2 _ _ h2 f1)
+
 end generic
 
 /-! ### over ℝ: the invariant is `total ≤ ceiling` componentwise -/
@@ -199,5 +294,126 @@ example : ∃ a, Acc.new (1 : ℝ) 0 0 0 [] = .ok a ∧ (a.step (.spend (1/2) 0)
   · norm_num [Acc.step, Acc.spend, Acc.check, checkEpsDelta, feq, Acc.unlimited, totalCore, epsSums,
       totalDeltaSafe, sortAsc, insertSorted, mkBudget, bind, Except.bind, pure, Except.pure, HasInf.isPosInf,
       List.forM, List.foldl]
+
+/-! ### `sum_fp_bound`: the exact sum of the recorded epsilons vs the ceiling, for slack-0 accountants
+
+With slack 0 the accountant's total ε is the sequentially accumulated sum of the recorded epsilons, computed with the
+carrier's `+` (`Fp.total_eps_slack0`, any carrier).  The carrier's relation to exact arithmetic is an explicit
+hypothesis (`FpCarrier`): a valuation `val : α → ℝ` under which `0`, `0 + x` and the comparisons mean what they say
+and every addition of non-negative numbers loses at most a factor `g` — which is what the standard model of
+floating-point addition gives (`fpCarrier_of_inv`: `g = 1 + u`; `fpCarrier_of_std`: `g = 1/(1−u)`). -/
+
+section fp
+variable {α : Type} [OfNat α 0] [OfNat α 1] [OfNat α 2] [Add α] [Sub α] [Mul α] [Div α] [Neg α]
+  [LT α] [LE α] [DecidableLT α] [DecidableLE α] [NatCast α] [Transc α] [HasInf α]
+
+/-- what is assumed of the carrier (IEEE doubles without overflow/NaN are the intended instance) -/
+structure FpCarrier (val : α → ℝ) (g : ℝ) : Prop where
+  one_le : 1 ≤ g
+  zero : val (0 : α) = 0
+  exact0 : ∀ x : α, val (0 + x) = val x
+  add : ∀ a b : α, 0 ≤ val a → 0 ≤ val b → val a + val b ≤ val (a + b) * g
+  le : ∀ a b : α, a ≤ b → val a ≤ val b
+  nlt : ∀ a b : α, ¬ a < b → val b ≤ val a
+
+/-- the standard model in the form `a + b = fl(a+b)(1+θ)`, `|θ| ≤ u` (Higham (2.5)) gives the factor `1 + u` -/
+theorem fpCarrier_of_inv (val : α → ℝ) (u : ℝ) (hu0 : 0 ≤ u) (hu1 : u < 1)
+    (hstd : Fp.StdModelInv val (fun a b : α => a + b) u) (hzero : val (0 : α) = 0)
+    (hexact0 : ∀ x : α, val (0 + x) = val x) (hle : ∀ a b : α, a ≤ b → val a ≤ val b)
+    (hnlt : ∀ a b : α, ¬ a < b → val b ≤ val a) : FpCarrier val (1 + u) :=
+  ⟨by linarith, hzero, hexact0, Fp.loss_of_inv val _ u hu1 hstd, hle, hnlt⟩
+
+/-- the standard model in the form `fl(a+b) = (a+b)(1+θ)`, `|θ| ≤ u` (Higham (2.4)) gives the factor `1/(1−u)` -/
+theorem fpCarrier_of_std (val : α → ℝ) (u : ℝ) (hu0 : 0 ≤ u) (hu1 : u < 1)
+    (hstd : Fp.StdModel val (fun a b : α => a + b) u) (hzero : val (0 : α) = 0)
+    (hexact0 : ∀ x : α, val (0 + x) = val x) (hle : ∀ a b : α, a ≤ b → val a ≤ val b)
+    (hnlt : ∀ a b : α, ¬ a < b → val b ≤ val a) : FpCarrier val (1 / (1 - u)) :=
+  ⟨by rw [le_div_iff₀ (by linarith)]; linarith, hzero, hexact0, Fp.loss_of_std val _ u hu1 hstd, hle, hnlt⟩
+
+/-- ★ `sum_fp_bound`: for EVERY accountant reachable from the constructor by any operation sequence, if it is limited
+and its slack is 0, the EXACT real sum of its `n` recorded epsilons is at most `ceiling · g^(n−1)` — because its own
+carrier-computed total passed the comparison against the ceiling (`run_fits`) and every recorded ε is non-negative
+(`run_valid`) -/
+theorem sum_fp_bound (val : α → ℝ) (g : ℝ) (hc : FpCarrier val g)
+    (eps delta slack mf : α) (prior : List (Spend α)) (a : Acc α) (h : Acc.new eps delta slack mf prior = .ok a)
+    (ops : List (AOp α)) (hlim : (a.run ops).unlimited = false) (hs : feq (a.run ops).slack 0 = true) :
+    ((a.run ops).spent.map fun sp => val sp.eps).sum ≤
+      val (a.run ops).ceilEps * g ^ ((a.run ops).spent.length - 1) := by
+  have hf := run_fits ops a (new_fits eps delta slack mf prior a h)
+  have hv := run_valid ops a (new_valid eps delta slack mf prior a h)
+  have hnn : ∀ sp ∈ (a.run ops).spent, 0 ≤ val sp.eps := fun sp hsp => by
+    have := hc.le 0 sp.eps (hv sp hsp)
+    rwa [hc.zero] at this
+  have hg0 : 0 ≤ g ^ ((a.run ops).spent.length - 1) := pow_nonneg (le_trans zero_le_one hc.one_le) _
+  rcases hf with hu | ⟨t, ht, h1, _⟩ | ⟨t, ht, h1, _⟩
+  · rw [hlim] at hu; cases hu
+  · exact le_trans (Fp.acc_sum_le_total val g hc.one_le hc.zero hc.exact0 hc.add _ hs hnn t ht)
+      (mul_le_mul_of_nonneg_right (hc.le _ _ h1) hg0)
+  · exact le_trans (Fp.acc_sum_le_total val g hc.one_le hc.zero hc.exact0 hc.add _ hs hnn t ht)
+      (mul_le_mul_of_nonneg_right (hc.nlt _ _ h1) hg0)
+
+/-- … instantiated for binary64 (`u = 2⁻⁵³`, either form of the standard model) and at most 9000 recorded spends: the
+exact sum is at most `ceiling · (1 + 1e-12)` — the slack the direct check of C04 allows in exact arithmetic -/
+theorem sum_fp_bound_binary64 (val : α → ℝ)
+    (hstd : Fp.StdModelInv val (fun a b : α => a + b) Fp.u64 ∨ Fp.StdModel val (fun a b : α => a + b) Fp.u64)
+    (hzero : val (0 : α) = 0) (hexact0 : ∀ x : α, val (0 + x) = val x)
+    (hle : ∀ a b : α, a ≤ b → val a ≤ val b) (hnlt : ∀ a b : α, ¬ a < b → val b ≤ val a)
+    (eps delta slack mf : α) (prior : List (Spend α)) (a : Acc α) (h : Acc.new eps delta slack mf prior = .ok a)
+    (ops : List (AOp α)) (hlim : (a.run ops).unlimited = false) (hs : feq (a.run ops).slack 0 = true)
+    (hlen : (a.run ops).spent.length ≤ 9000) :
+    ((a.run ops).spent.map fun sp => val sp.eps).sum ≤ val (a.run ops).ceilEps * (1 + 1 / 10 ^ 12) := by
+  have hk : (a.run ops).spent.length - 1 ≤ 8999 := by omega
+  have hfac := Fp.factor_9000 _ hk
+  have hv := run_valid ops a (new_valid eps delta slack mf prior a h)
+  have hsum0 : 0 ≤ ((a.run ops).spent.map fun sp => val sp.eps).sum := by
+    apply List.sum_nonneg
+    intro x hx
+    obtain ⟨sp, hsp, rfl⟩ := List.mem_map.mp hx
+    have := hle 0 sp.eps (hv sp hsp)
+    rwa [hzero] at this
+  -- in both forms: sum ≤ ceiling · g^(n−1) with 0 < g^(n−1) ≤ 1 + 1e-12
+  have key : ∀ g : ℝ, FpCarrier val g → g ^ ((a.run ops).spent.length - 1) ≤ 1 + 1 / 10 ^ 12 →
+      ((a.run ops).spent.map fun sp => val sp.eps).sum ≤ val (a.run ops).ceilEps * (1 + 1 / 10 ^ 12) := by
+    intro g hc hg
+    have hb := sum_fp_bound val g hc eps delta slack mf prior a h ops hlim hs
+    have hgpos : 0 < g ^ ((a.run ops).spent.length - 1) := pow_pos (lt_of_lt_of_le one_pos hc.one_le) _
+    have hceil : 0 ≤ val (a.run ops).ceilEps := by
+      by_contra hneg
+      have : val (a.run ops).ceilEps * g ^ ((a.run ops).spent.length - 1) < 0 :=
+        mul_neg_of_neg_of_pos (not_le.mp hneg) hgpos
+      linarith
+    exact le_trans hb (mul_le_mul_of_nonneg_left hg hceil)
+  rcases hstd with hm | hm
+  · exact key _ (fpCarrier_of_inv val Fp.u64 Fp.u64_pos.le Fp.u64_lt_one hm hzero hexact0 hle hnlt) hfac.1
+  · exact key _ (fpCarrier_of_std val Fp.u64 Fp.u64_pos.le Fp.u64_lt_one hm hzero hexact0 hle hnlt) hfac.2
+
+end fp
+
+/-- the list form over ℝ, for an abstract rounded addition `fl_add` with exact `0 ⊕ x`: the exact sum of `n`
+non-negative numbers vs their float-accumulated sum `((0 ⊕ x₁) ⊕ x₂) ⊕ … ⊕ xₙ`, in both forms of the standard model -/
+theorem sum_fp_bound_list (fl_add : ℝ → ℝ → ℝ) (u : ℝ) (hu0 : 0 ≤ u) (hu1 : u < 1) (hzero : ∀ x, fl_add 0 x = x)
+    (xs : List ℝ) (hx : ∀ x ∈ xs, 0 ≤ x) :
+    (Fp.StdModelInv id fl_add u → xs.sum ≤ xs.foldl fl_add 0 * (1 + u) ^ (xs.length - 1)) ∧
+    (Fp.StdModel id fl_add u → xs.sum * (1 - u) ^ (xs.length - 1) ≤ xs.foldl fl_add 0) := by
+  constructor
+  · intro hm
+    have := Fp.sum_le_accumulated fl_add id 0 (1 + u) (by linarith) rfl hzero (Fp.loss_of_inv id fl_add u hu1 hm) xs hx
+    simpa using this
+  · intro hm
+    have hpos : 0 < 1 - u := by linarith
+    have := Fp.sum_le_accumulated fl_add id 0 (1 / (1 - u)) (by rw [le_div_iff₀ hpos]; linarith) rfl hzero
+      (Fp.loss_of_std id fl_add u hu1 hm) xs hx
+    rw [List.map_id, one_div_pow, mul_one_div, le_div_iff₀ (pow_pos hpos _)] at this
+    exact this
+
+/-- binary64: `(1 + 2⁻⁵³)^(n−1) ≤ 1 + 1e-12` and `(1 − 2⁻⁵³)^(−(n−1)) ≤ 1 + 1e-12` for `n ≤ 9000` -/
+theorem fp_slack_9000 (n : ℕ) (hn : n ≤ 9000) :
+    (1 + (1 : ℝ) / 2 ^ 53) ^ (n - 1) ≤ 1 + 1 / 10 ^ 12 ∧ (1 / (1 - (1 : ℝ) / 2 ^ 53)) ^ (n - 1) ≤ 1 + 1 / 10 ^ 12 :=
+  Fp.factor_9000 (n - 1) (by omega)
+
+/-- non-vacuity of `FpCarrier`: exact arithmetic (ℝ itself, `g = 1`) is an instance, and so is any rounded addition
+on ℝ that is exact on `0 + x` and follows the standard model -/
+example : FpCarrier (α := ℝ) id 1 :=
+  ⟨le_refl _, rfl, fun x => zero_add x, fun a b _ _ => by simp, fun _ _ h => h, fun _ _ h => not_lt.mp h⟩
 
 end DPL.C04
